@@ -194,9 +194,10 @@ def matmul(
     constraint: Optional[str] = "to_output_scale",
 ) -> Tensor:
     # torch.matmul also accepts 1-D operands: the missing dimension has size 1
-    left_size = left.shape[-2] if left.ndim > 1 else 1
+    # (written without control flow on the shapes, so that torch.fx can trace it)
+    left_size = left.shape[-2:-1].numel()
     inner_size = left.shape[-1]
-    right_size = right.shape[-1] if right.ndim > 1 else 1
+    right_size = right.shape[1:][-1:].numel()
 
     output_scale = inner_size**-0.5
     left_grad_scale = right_size**-0.5
